@@ -30,12 +30,14 @@ def configs(tier, seed):
         for b in ("mem", "fs", "fsc4", "fs+m"):
             cfgs.append(("c05nm", b, KEYS[1:3], ("s", "X", "N"), True, 4, seed))
         full = ("s", "L", "X", "N", "E")
+        # (depths chosen so that the tier finishes in about an hour on 16 cores: the alphabet has grown to some 45 operations)
         for b in ("mem", "fs", "fs+m", "fsc4", "fsc4+m", "fsc64"):
-            cfgs.append(("c05", b, KEYS, full, False, 3 if b in ("fs+m", "fsc64") else 4, seed))
+            cfgs.append(("c05", b, KEYS, full, False, 4 if b in ("mem", "fsc4") else 3, seed))
         for b in ("mem", "fs", "fs+m", "fsc4", "fsc64"):
-            cfgs.append(("c05", b, KEYS[1:3], ("s", "L", "X", "N"), True, 6, seed))
+            cfgs.append(("c05", b, KEYS[1:3], ("s", "L", "X", "N"), True, 6 if b == "mem" else 5, seed))
         for b in ("fsc4", "fsc4+m", "mem"):
-            cfgs.append(("c05", b, KEYS[1:3], ("s", "L", "A", "AX"), True, 5, seed))
+            cfgs.append(("c05", b, KEYS[1:3], ("s", "L", "A", "AX"), True, 5 if b == "mem" else 4, seed))
+        cfgs.append(("c05", "fsc4", KEYS[1:3], ("s", "D"), True, 5, seed))
         cfgs.append(("c05", "fsc4", KEYS, ("s", "A", "AX"), False, 3, seed))
     return cfgs
 
